@@ -462,7 +462,7 @@ theorem pubAttempt_X {w : World} {es : List Entry} {k m q : Nat} {d : Bool}
     · refine ⟨fun _ _ h1 => ?_, fun hv => ?_⟩
       · exfalso
         rw [ha.broker] at h1
-        exact hB.bb.loaded m h1 hf.2
+        exact hB.bb.loaded m h1 hf
       · have hv' : ValidAcc w := by unfold ValidAcc at *; rwa [ha.mod.accepted] at hv
         rw [ha.broker]; exact Or.inr (Or.inl ⟨hidle hv', fun h => Bool.noConfusion h⟩)
     · have hi : i0 = i := by
